@@ -16,6 +16,10 @@ GOENV = dict(os.environ, GOFLAGS="-mod=mod", GOPROXY="off", GOSUMDB="off", GOTOO
              CGO_ENABLED="0")
 
 
+import threading
+_BUILD_LOCK = threading.Lock()
+
+
 class Infra(Exception):
     """Infrastructure failure: exit 2, never a verdict."""
 
@@ -54,11 +58,21 @@ class Ctx:
 
     # ------------------------------------------------------------ builds --
     def build_harness(self):
+        with _BUILD_LOCK:
+            return self._build_harness()
+
+    def _build_harness(self):
         if self.vh:
             return self.vh
         out = self.path("bin", "vh")
         gosum = os.path.join(HARNESS, "go.sum")
-        shutil.copyfile(os.path.join(REPO, "go.sum"), gosum)
+        # several checks may run at once: replace go.sum atomically, and only when it differs
+        want = open(os.path.join(REPO, "go.sum"), "rb").read()
+        if not os.path.exists(gosum) or open(gosum, "rb").read() != want:
+            tmp = "%s.%d.tmp" % (gosum, os.getpid())
+            with open(tmp, "wb") as f:
+                f.write(want)
+            os.replace(tmp, gosum)
         env = dict(GOENV)
         modfile = None
         if REPO != "/repo":
@@ -78,6 +92,10 @@ class Ctx:
         return out
 
     def build_cli(self, tags="verif"):
+        with _BUILD_LOCK:
+            return self._build_cli(tags)
+
+    def _build_cli(self, tags="verif"):
         if self.cli:
             return self.cli
         out = self.path("bin", "gopatch")
